@@ -262,6 +262,7 @@ class P(Prop):
         (M, "TV.C08.index_complete", "after SpatialIndex(collection,res,margin>=0) returned, every point of every segment of feature k is inside the extent and the cell containing it lists k"),
         (M, "TV.C08.point_query_complete", "request(q), q inside the extent, does not raise and returns every feature having a segment point in the cell containing q"),
         (M, "TV.C08.segment_query_complete", "a returned request([Q1,Q2]) contains every feature listed in the cell of any point of the query segment"),
+        (M, "TV.C08.segment_query_returns", "request([Q1,Q2]) does not raise when both ends are inside the extent and strictly below its upper borders"),
         (M, "TV.C08.track_query_complete", "a returned request(track) contains every feature listed in the cell of any point of any segment of the query track"),
         (M, "TV.C08.units_sound", "points at most d apart on each axis fall in cells whose column/row indices differ by at most groundDistanceToUnits(d) = floor(d/min(dX,dY)+1)"),
         (M, "TV.C08.neighboringCells_square", "__neighboringcells(i,j,u) is exactly the Chebyshev square of radius u around (i,j) clipped to the grid"),
